@@ -32,8 +32,14 @@ struct StreamD {
     name: String,
     src: String,
     ctx: usize,
-    /// 0: where v > a, emit v + b · 1: count window of 2, sum · 2: distinct(id)
+    /// 0: where v > a, emit v + b · 1: count window of 2, sum · 2: distinct(v) ·
+    /// 3: sequence `src as a -> src2 as b` over two raw types of its own (one `src2` event completes
+    /// every open run: SEVERAL outputs for one input)
     kind: u8,
+    /// second source type of a sequence stream
+    src2: Option<String>,
+    /// the source is written `src as x` (aliased) instead of a bare identifier
+    alias: bool,
     a: i64,
     b: i64,
 }
@@ -53,13 +59,20 @@ impl Prog {
             }
         }
         for st in &self.streams {
-            s.push_str(&format!("\nstream {} = {}\n", st.name, st.src));
+            if st.kind == 3 {
+                s.push_str(&format!("\nstream {} = {} as a\n    -> {} as b\n", st.name, st.src, st.src2.as_deref().unwrap_or("B")));
+            } else if st.alias {
+                s.push_str(&format!("\nstream {} = {} as x\n", st.name, st.src));
+            } else {
+                s.push_str(&format!("\nstream {} = {}\n", st.name, st.src));
+            }
             if with_ctx {
                 s.push_str(&format!("    .context(c{})\n", st.ctx));
             }
             match st.kind {
                 0 => s.push_str(&format!("    .where(v > {})\n    .emit(id: id, v: v + {})\n", st.a, st.b)),
                 1 => s.push_str("    .window(2)\n    .aggregate(id: last(id), v: sum(v))\n    .emit(id: id, v: v)\n"),
+                3 => s.push_str("    .emit(id: a.id, v: b.v)\n"),
                 _ => s.push_str(&format!("    .distinct(v)\n    .emit(id: id, v: v + {})\n", st.b)),
             }
         }
@@ -71,6 +84,11 @@ impl Prog {
         for st in &self.streams {
             if !names.contains(st.src.as_str()) && !v.contains(&st.src) {
                 v.push(st.src.clone());
+            }
+            if let Some(s2) = &st.src2 {
+                if !v.contains(s2) {
+                    v.push(s2.clone());
+                }
             }
         }
         v
@@ -274,12 +292,13 @@ fn render(trace: &[String]) -> Vec<(String, String)> {
             "recv" => {
                 // outputs of this message = the forwards of this context up to its next recv
                 let mut outs: Vec<&str> = Vec::new();
+                // (production order: the engine's own `emit` records, not the forwards)
                 if r[2] == "ev" {
                     for r2 in recs.iter().skip(i + 1) {
                         if r2[0] == "recv" && r2[1] == r[1] {
                             break;
                         }
-                        if r2[0] == "fwd" && r2[1] == r[1] {
+                        if r2[0] == "emit" && r2[1] == r[1] {
                             outs.push(r2[2]);
                         }
                     }
@@ -294,47 +313,80 @@ fn render(trace: &[String]) -> Vec<(String, String)> {
             "inject" => lines.push((format!("inject {}", cidx(r[2])), format!("{} {}", r[1], r[3]))),
             "snap" | "ack" | "collect" => lines.push((format!("{} {}", r[0], cidx(r[1])), r[2].to_string())),
             "complete" => lines.push(("complete".to_string(), r[2].to_string())),
+            "emit" => {}
             _ => lines.push((format!("unknown {}", r.join("_")), "?".to_string())),
         }
     }
     lines
 }
 
-/// per edge producer>consumer: every forwarding attempt (`+` enqueued, `-` dropped) and what the
-/// consumer took from its inbox, both in order, straight from the implementation's records
+/// per (stream type u, its context p, a context q): what the engine of p produced of type u
+/// (production order), every forwarding attempt of it (`+` enqueued into q, `-` try_send into q
+/// failed, `!` not sent to q at all) and what q took from its inbox — all straight from the
+/// implementation's records. Listed: every pair (u, q) where a stream of q consumes u from another
+/// context (whether or not the implementation routes it), plus every pair that shows up in a
+/// forward or a receive.
 fn edges(prog: &Prog, trace: &[String]) -> String {
     let owner: HashMap<&str, usize> = prog.streams.iter().map(|s| (s.name.as_str(), s.ctx)).collect();
-    let mut att: BTreeMap<(String, String), Vec<String>> = BTreeMap::new();
-    let mut got: BTreeMap<(String, String), Vec<String>> = BTreeMap::new();
-    for l in trace {
-        let r: Vec<&str> = l.split(' ').collect();
-        if r[0] == "fwd" && r[3] != "-" {
-            att.entry((cidx(r[1]), cidx(r[3]))).or_default().push(format!("{}{}", r[2], if r[4] == "ok" { "+" } else { "-" }));
-        } else if r[0] == "recv" && r[2] == "ev" {
-            let ty = r[3].split('#').next().unwrap_or("");
-            if let Some(p) = owner.get(ty) {
-                got.entry((p.to_string(), cidx(r[1]))).or_default().push(r[3].to_string());
+    let mut pairs: Vec<(String, String)> = Vec::new(); // (type, q)
+    for st in &prog.streams {
+        for src in std::iter::once(&st.src).chain(st.src2.iter()) {
+            if let Some(p) = owner.get(src.as_str()) {
+                if *p != st.ctx {
+                    let k = (src.clone(), st.ctx.to_string());
+                    if !pairs.contains(&k) {
+                        pairs.push(k);
+                    }
+                }
             }
         }
     }
-    let mut keys: Vec<(String, String)> = att.keys().cloned().collect();
-    for k in got.keys() {
-        if !keys.contains(k) {
-            keys.push(k.clone());
+    let recs: Vec<Vec<&str>> = trace.iter().map(|l| l.split(' ').collect()).collect();
+    let ty_of = |k: &str| k.split('#').next().unwrap_or("").to_string();
+    for r in &recs {
+        let k = if r[0] == "fwd" && r[3] != "-" {
+            Some((ty_of(r[2]), cidx(r[3])))
+        } else if r[0] == "recv" && r[2] == "ev" && owner.contains_key(ty_of(r[3]).as_str()) {
+            Some((ty_of(r[3]), cidx(r[1])))
+        } else {
+            None
+        };
+        if let Some(k) = k {
+            if !pairs.contains(&k) {
+                pairs.push(k);
+            }
         }
     }
-    keys.sort();
-    let j = |v: Option<&Vec<String>>| match v {
-        Some(v) if !v.is_empty() => v.join(","),
-        _ => "-".to_string(),
-    };
-    keys.iter().map(|k| format!("{}>{}:{};{}", k.0, k.1, j(att.get(k)), j(got.get(k)))).collect::<Vec<_>>().join(" ")
+    pairs.sort();
+    let j = |v: &Vec<String>| if v.is_empty() { "-".to_string() } else { v.join(",") };
+    let mut out = Vec::new();
+    for (u, q) in &pairs {
+        let p = owner[u.as_str()].to_string();
+        let mut prod = Vec::new();
+        let mut att = Vec::new();
+        let mut got = Vec::new();
+        for r in &recs {
+            if r[0] == "emit" && cidx(r[1]) == p && ty_of(r[2]) == *u {
+                prod.push(r[2].to_string());
+            } else if r[0] == "fwd" && cidx(r[1]) == p && ty_of(r[2]) == *u {
+                let flag = if r[3] != "-" && cidx(r[3]) == *q { if r[4] == "ok" { "+" } else { "-" } } else { "!" };
+                att.push(format!("{}{}", r[2], flag));
+            } else if r[0] == "recv" && r[2] == "ev" && cidx(r[1]) == *q && ty_of(r[3]) == *u {
+                got.push(r[3].to_string());
+            }
+        }
+        out.push(format!("{}@{}>{}:{};{};{}", u, p, q, j(&att), j(&got), j(&prod)));
+    }
+    out.join(" ")
 }
 
 fn emit_header(ctx: &mut Ctx, prog: &Prog, cap: usize, tag: &str) {
     ctx.directive(&format!("new {} {} {}", prog.nctx, cap, tag));
     for st in &prog.streams {
-        ctx.directive(&format!("stream {} {} {}", st.name, st.src, st.ctx));
+        ctx.directive(&format!("stream {} {} {}{}", st.name, st.src, st.ctx, if st.alias || st.kind == 3 { " alias" } else { "" }));
+        if let Some(s2) = &st.src2 {
+            ctx.directive(&format!("stream {} {} {} alias", st.name, s2, st.ctx));
+        }
     }
 }
 
@@ -375,15 +427,27 @@ fn gen_prog(ctx: &mut Ctx, shape: u64) -> Prog {
             };
             (format!("S{up}"), cx)
         };
-        let kind = if ctx.rng.chance(1, 5) { 1 } else if ctx.rng.chance(1, 6) { 2 } else { 0 };
-        streams.push(StreamD { name, src, ctx: cx, kind, a: ctx.rng.range(-1, 2), b: ctx.rng.range(0, 2) });
+        let raw_src = src.starts_with('T');
+        let kind = if raw_src && ctx.rng.chance(1, 4) { 3 } else if ctx.rng.chance(1, 5) { 1 } else if ctx.rng.chance(1, 6) { 2 } else { 0 };
+        let (src, src2) = if kind == 3 { (format!("A{i}"), Some(format!("B{i}"))) } else { (src, None) };
+        let alias = kind != 3 && ctx.rng.chance(1, 3);
+        streams.push(StreamD { name, src, ctx: cx, kind, src2, alias, a: ctx.rng.range(-1, 2), b: ctx.rng.range(0, 2) });
     }
     Prog { nctx, streams }
 }
 
 fn gen_events(ctx: &mut Ctx, prog: &Prog, n: usize) -> Vec<Event> {
     let raws = prog.raw_types();
-    (0..n).map(|i| mk_event(ctx.rng.pick(&raws[..]).as_str(), i as i64 + 1, ctx.rng.range(0, 6))).collect()
+    (0..n)
+        .map(|i| {
+            let mut ty = ctx.rng.pick(&raws[..]).clone();
+            // several open runs before the event that completes them all
+            if ty.starts_with('B') && ctx.rng.chance(1, 2) {
+                ty = format!("A{}", &ty[1..]);
+            }
+            mk_event(&ty, i as i64 + 1, ctx.rng.range(0, 6))
+        })
+        .collect()
 }
 
 // ---------------------------------------------------------------------------------------------
@@ -429,13 +493,24 @@ fn run_c26(ctx: &mut Ctx) {
     let chain = Prog {
         nctx: 2,
         streams: vec![
-            StreamD { name: "S0".into(), src: "T0".into(), ctx: 0, kind: 0, a: -1, b: 0 },
-            StreamD { name: "S1".into(), src: "S0".into(), ctx: 1, kind: 0, a: -1, b: 0 },
+            StreamD { name: "S0".into(), src: "T0".into(), ctx: 0, kind: 0, src2: None, alias: false, a: -1, b: 0 },
+            StreamD { name: "S1".into(), src: "S0".into(), ctx: 1, kind: 0, src2: None, alias: false, a: -1, b: 0 },
         ],
     };
     let evs: Vec<Event> = (1..=3).map(|i| mk_event("T0", i, i)).collect();
     c26_scenario(ctx, &chain, &evs, 1, &Policy { w: vec![5, 5, 0] }, "witness-drop");
     c26_scenario(ctx, &chain, &evs, 1, &Policy::eager(2), "witness-eager");
+    // a batch of several outputs of ONE input crossing an edge written with an aliased source
+    let batch = Prog {
+        nctx: 2,
+        streams: vec![
+            StreamD { name: "S0".into(), src: "A0".into(), ctx: 0, kind: 3, src2: Some("B0".into()), alias: false, a: 0, b: 0 },
+            StreamD { name: "S1".into(), src: "S0".into(), ctx: 1, kind: 0, src2: None, alias: true, a: -1, b: 1 },
+        ],
+    };
+    let bevs: Vec<Event> = vec![mk_event("A0", 1, 1), mk_event("A0", 2, 2), mk_event("A0", 3, 3), mk_event("B0", 4, 4), mk_event("A0", 5, 5), mk_event("B0", 6, 6)];
+    c26_scenario(ctx, &batch, &bevs, 8, &Policy::eager(2), "witness-batch");
+    c26_scenario(ctx, &batch, &bevs, 8, &Policy { w: vec![5, 5, 1] }, "witness-batch-lazy");
     let n = if ctx.thorough { 1500 } else { 150 };
     for i in 0..n {
         let shape = if i % 5 == 4 { 2 } else { (i % 2) as u64 };
@@ -608,8 +683,8 @@ fn run_c27(ctx: &mut Ctx) {
     let chain = Prog {
         nctx: 2,
         streams: vec![
-            StreamD { name: "S0".into(), src: "T0".into(), ctx: 0, kind: 0, a: -1, b: 0 },
-            StreamD { name: "S1".into(), src: "S0".into(), ctx: 1, kind: 0, a: -1, b: 0 },
+            StreamD { name: "S0".into(), src: "T0".into(), ctx: 0, kind: 0, src2: None, alias: false, a: -1, b: 0 },
+            StreamD { name: "S1".into(), src: "S0".into(), ctx: 1, kind: 0, src2: None, alias: false, a: -1, b: 0 },
         ],
     };
     let evs: Vec<Event> = (1..=3).map(|i| mk_event("T0", i, i)).collect();
